@@ -101,7 +101,10 @@ pub fn for_property(prop: &str) -> Vec<Family> {
             sw("fsync-drop-sweep", "the owner drops the future_sync future when the queue's runner is at each of its scheduling points on the way to, inside and past the slot", gen_fsync_drop_sweep, Q / 4, T / 4, 64),
         ],
         "C10" => vec![f("isolate", "k objects blocked on gates that stay closed, pool maximum above the number of stalled threads, other objects must finish before the gates open", gen_isolate, Q, T)],
-        "C11" => vec![f("pipe-in", "pipe_in with items arriving before/during/after polls, concurrent sync/desync on the target, the target dropped while the stream is open", gen_pipe_in, Q, T)],
+        "C11" => vec![
+            f("pipe-in", "pipe_in with items arriving before/during/after polls (single items and bursts), concurrent sync/desync/futures on the target, the target dropped while the stream is open", gen_pipe_in, Q * 5 / 8, T * 5 / 8),
+            sw("pipe-in-drop-sweep", "the last owner of the target released at every scheduling point of the context polling the input, through bursts of up to 14 ready items", gen_pipe_in_drop_sweep, Q * 3 / 8, T * 3 / 8, 160),
+        ],
         "C12" => vec![f("pipe-out", "pipe with depth 1..5, consumer reading by blocking and by single polls, producer pushing and closing", gen_pipe_out, Q, T)],
         "C14" => vec![
             f("mix", "all operation kinds; closures and captures carry scope canaries and drop probes", g_mix, Q / 8, T / 8),
@@ -148,7 +151,7 @@ pub fn required_probes(prop: &str) -> &'static [&'static str] {
         "C09" => &["try_ok", "try_busy"],
         "C05" => &["drops_by_caller", "drops_by_pool", "sweep_injections_fired", "drops_while_panicking"],
         "C10" => &["block_on"],
-        "C11" => &["stream_pending"],
+        "C11" => &["stream_pending", "sweep_injections_fired"],
         "C12" => &["out_pending", "stream_pending"],
         "C15" => &["panics_injected", "panic_on_pool", "panic_on_caller", "calls_on_panicked"],
         "C16" => &["sweep_injections_fired"],
